@@ -281,7 +281,12 @@ impl<M: Machine> World<M> {
                 if right_n > left_n {
                     model.right_acc = true;
                 }
-                let st = M::merge(sa.st, sb.st, *op);
+                // a merge is a library call like any other: its panic is data (both operands are
+                // gone with it; the event reports the panic and touches nothing)
+                let st = match guard(|| M::merge(sa.st, sb.st, *op)) {
+                    Ok(st) => st,
+                    Err(p) => return StepInfo { touched: vec![], outcome: Some(Out::Panic(p)), noop: false },
+                };
                 self.put(*dst, Slot { st, model });
                 StepInfo { touched: vec![*dst], outcome: None, noop: false }
             }
@@ -303,7 +308,10 @@ impl<M: Machine> World<M> {
                         }
                     }
                 };
-                let st = if side % 2 == 0 { M::merge(sa.st, e, op) } else { M::merge(e, sa.st, op) };
+                let st = match guard(|| if side % 2 == 0 { M::merge(sa.st, e, op) } else { M::merge(e, sa.st, op) }) {
+                    Ok(st) => st,
+                    Err(p) => return StepInfo { touched: vec![], outcome: Some(Out::Panic(p)), noop: false },
+                };
                 let mut model = sa.model;
                 model.tree = crate::rng::mix(model.tree, "empty", *side as u64);
                 self.put(*a, Slot { st, model });
